@@ -600,6 +600,8 @@ impl Wal {
     }
 
     pub fn checkpoint(&self, storage: &mut super::MmapStorage) -> Result<u32> {
+        // recover() reads the segment files: buffered frames must be in them first
+        self.sync()?;
         let frames_applied = self.recover(storage)?;
 
         storage
